@@ -150,12 +150,16 @@ HX void hx_macros(uint64_t policy, uint64_t kinds, uint64_t how) {
    detail::Log* log = lg.getLog(id); Ref r;
    for (int i = 0; i < 2; ++i) { int k = (kinds >> (4 * i)) & 15; if (k) apply(*log, r, k, (int) policy, 2, "level"); }
    RecDest* d = new RecDest; log->addDestination("d", d);
+   RecDest* e = new RecDest; log->addDestination("e", e);
+   Ref rd, re;          // filters of the two destinations (kinds in bits 8-11 / 12-15)
+   { int k = (kinds >> 8) & 15; if (k) apply(*d, rd, k, (int) policy, 2, "level"); k = (kinds >> 12) & 15; if (k) apply(*e, re, k, (int) policy, 2, "level"); }
    RecDest* d2 = new RecDest; lg.getLog(other)->addDestination("d", d2);
    int level = sym_level("msglevel"); vs_assume(level >= 1);        // level 0 is 'undefined'
    // (1) without the pre-check
    LOG(id) << (LogLevel) level << LogClass::data << "text";
-   const int plain = d->count;
-   vs_assert(plain == (r.pass(level, (int) LogClass::data) ? 1 : 0), "LOG() delivers exactly the messages that pass the filters of the log");
+   const int plain_d = d->count, plain_e = e->count;
+   vs_assert(plain_d == ((r.pass(level, (int) LogClass::data) && rd.pass(level, (int) LogClass::data)) ? 1 : 0) && plain_e == ((r.pass(level, (int) LogClass::data) && re.pass(level, (int) LogClass::data)) ? 1 : 0),
+             "LOG() delivers exactly the messages that pass the filters of the log and of the destination");
    // (2) with the pre-check
    int rc = 0;
    try {
@@ -163,7 +167,7 @@ HX void hx_macros(uint64_t policy, uint64_t kinds, uint64_t how) {
       else switch (level) { SEND_LEVEL("app", fatal); SEND_LEVEL("app", error); SEND_LEVEL("app", warning); SEND_LEVEL("app", info); SEND_LEVEL("app", debug); SEND_LEVEL("app", fullDebug); }
    } catch (...) { rc = 1; }
    vs_assert(rc == 0, "logging through the macros does not fail");
-   vs_assert(d->count - plain == plain, "the level pre-check of the logging macros neither discards a message that the filters let through nor lets another one through");
+   vs_assert(d->count - plain_d == plain_d && e->count - plain_e == plain_e, "the level pre-check of the logging macros neither discards a message that the filters let through nor lets another one through (for every destination)");
    vs_assert(d2->count == 0, "no other log receives the message");
    // (3) a log that does not exist
    const int before = d->count;
